@@ -33,7 +33,11 @@ pub fn gen_crash_base(seed: u64, mode: Mode) -> Plan {
     let mut rng = Rng::new(mix(seed, 0xC7A5));
     let geometry = if rng.chance(0.04) { "real" } else { "small" };
     let g = geom(geometry);
-    let n_topics = rng.range(1, 2) as usize;
+    // C07 "rotation race": several threads, one topic each, entries that open a fresh block
+    // almost every time, so that blocks of different topics are handed out back to back while
+    // earlier ones are still being written
+    let race_mode = mode == Mode::C07 && rng.chance(0.2);
+    let n_topics = if race_mode { rng.range(2, 3) as usize } else { rng.range(1, 2) as usize };
     let mut pool: Vec<&str> = TOPIC_POOL[..5].to_vec();
     let mut topics = Vec::new();
     for _ in 0..n_topics {
@@ -51,7 +55,7 @@ pub fn gen_crash_base(seed: u64, mode: Mode) -> Plan {
         _ => 0,
     };
     let fsync = rng.pick(&["ms:1", "ms:200", "each", "none"]).to_string();
-    let backend = rng.pick(&["fd", "fd", "mmap"]).to_string();
+    let backend = if race_mode { rng.pick(&["fd", "mmap", "mmap"]).to_string() } else { rng.pick(&["fd", "fd", "mmap"]).to_string() };
     let n_work = if mode == Mode::C08 { 1 } else { rng.range(1, 2) as usize };
     let mut ids = IdGen(0);
     let mut incarnations = Vec::new();
@@ -78,7 +82,13 @@ pub fn gen_crash_base(seed: u64, mode: Mode) -> Plan {
         }
     };
     for w in 0..n_work {
-        let n_threads = if mode == Mode::C07 && rng.chance(0.35) { rng.range(2, 3) as usize } else { 1 };
+        let n_threads = if race_mode {
+            n_topics
+        } else if mode == Mode::C07 && rng.chance(0.35) {
+            rng.range(2, 3) as usize
+        } else {
+            1
+        };
         let n_ops = match mode {
             Mode::C08 => rng.range(0, 6),
             _ => rng.range(3, 30),
@@ -86,8 +96,16 @@ pub fn gen_crash_base(seed: u64, mode: Mode) -> Plan {
         let mut setup = vec![open(&mut ids)];
         let mut threads: Vec<Vec<Op>> = (0..n_threads).map(|_| Vec::new()).collect();
         for _ in 0..n_ops {
-            let t = rng.below(n_topics as u64) as u32;
+            let mut t = rng.below(n_topics as u64) as u32;
             let th = rng.below(n_threads as u64) as usize;
+            if race_mode {
+                t = th as u32;
+                if geometry == "small" && rng.chance(0.6) {
+                    let len = rng.range(g.block / 2, g.block - 256);
+                    threads[th].push(Op { id: ids.next(), kind: OpKind::Append { inst: 0, topic: t, len } });
+                    continue;
+                }
+            }
             let is_read = mode == Mode::C09 && rng.chance(0.5);
             let op = if is_read {
                 if rng.chance(0.6) {
@@ -154,6 +172,36 @@ pub fn gen_crash_base(seed: u64, mode: Mode) -> Plan {
             trace_io: false,
         });
     }
+    // C07: sometimes the recovered process keeps working (appends acknowledged after the crash
+    // must also survive the next restart), ending without a clean close
+    let mut profile = if race_mode { "crash+race" } else { "crash" };
+    if mode == Mode::C07 && rng.chance(0.4) {
+        profile = if race_mode { "crash+post+race" } else { "crash+post" };
+        let mut pops = vec![open(&mut ids)];
+        for _ in 0..rng.range(1, 6) {
+            let t = rng.below(n_topics as u64) as u32;
+            if rng.chance(0.25) {
+                let n = rng.range(2, 6);
+                let lens: Vec<u64> = (0..n).map(|_| plen(&mut rng)).collect();
+                pops.push(Op { id: ids.next(), kind: OpKind::BatchAppend { inst: 0, topic: t, lens } });
+            } else {
+                pops.push(Op { id: ids.next(), kind: OpKind::Append { inst: 0, topic: t, len: plen(&mut rng) } });
+            }
+        }
+        if rng.chance(0.3) {
+            pops.push(Op { id: ids.next(), kind: OpKind::Close { inst: 0 } });
+        }
+        incarnations.push(Incarnation {
+            sched: gen_sched(&mut rng, 1),
+            clock_start_ms: clock_ms,
+            clock_delta_ms: Some(rng.range(1, 5000) as i64),
+            backend: backend.clone(),
+            phases: vec![Phase { threads: vec![pops] }],
+            faults: vec![],
+            buggify: vec![],
+            trace_io: false,
+        });
+    }
     // verifying incarnation: strict consumer drains everything with read_next
     let mut vops = vec![open(&mut ids)];
     for t in 0..n_topics as u32 {
@@ -170,7 +218,13 @@ pub fn gen_crash_base(seed: u64, mode: Mode) -> Plan {
         buggify: vec![],
         trace_io: false,
     });
-    Plan { v: 1, property: id_of(mode).into(), profile: "crash".into(), seed, geometry: geometry.into(), topics, incarnations }
+    Plan { v: 1, property: id_of(mode).into(), profile: profile.into(), seed, geometry: geometry.into(), topics, incarnations }
+}
+
+/// index of the incarnation that receives the crash fault
+fn crash_inc_of(plan: &Plan) -> usize {
+    let back = if plan.profile.contains("+post") { 3 } else { 2 };
+    plan.incarnations.len().saturating_sub(back)
 }
 
 #[derive(Clone, Debug)]
@@ -476,7 +530,8 @@ pub fn judge_crash(plan: &Plan, rr: &RunResult, mode: Mode) -> Vec<Finding> {
                                 // literal: acked entries first, then a subsequence of the in-flight op
                                 let first_inflight = order.iter().position(|i| all[*i].4.is_none());
                                 if let Some(p) = first_inflight {
-                                    if order[p..].iter().any(|i| all[*i].4.is_some()) {
+                                    let crashed_in = all[order[p]].6;
+                                    if order[p..].iter().any(|i| all[*i].4.is_some() && all[*i].6 <= crashed_in) {
                                         out.push(Finding::new(&format!("{}.inflight_not_last", pfx), verify_idx, *id, "an entry of the operation in flight at the crash precedes an acknowledged entry".into()));
                                     }
                                 }
@@ -631,7 +686,7 @@ impl Scenario for CrashScenario {
                 out.harness_errors.push(f.detail.clone());
             }
         }
-        let crash_inc = base.incarnations.len() - 2;
+        let crash_inc = crash_inc_of(&base);
         if rr0.incs.len() != base.incarnations.len() {
             return out;
         }
@@ -647,6 +702,8 @@ impl Scenario for CrashScenario {
             .iter()
             .filter(|p| match self.mode {
                 Mode::C08 => p.op == target_op,
+                // rotation race: the interesting instants are the data writes themselves
+                Mode::C07 if base.profile.contains("+race") && base.incarnations[crash_inc].backend == "mmap" => p.kind == "Store",
                 _ => true,
             })
             .collect();
@@ -695,7 +752,15 @@ impl Scenario for CrashScenario {
                     Some(op) => Sel::InOp { op, nth: p.nth_in_op },
                     None => Sel::AtIo(p.n),
                 };
-                plan.incarnations[crash_inc].faults = vec![Fault { sel, act: act.clone() }];
+                // several client threads: half of the variants first hold the crashing thread back
+                // (a slow thread), so that the others get ahead of the write that is then cut short
+                let multi = base.incarnations[crash_inc].phases.iter().any(|p| p.threads.len() > 1);
+                let mut faults = Vec::new();
+                if multi && p.op.is_some() && rng.chance(0.5) {
+                    faults.push(Fault { sel: sel.clone(), act: Act::Stall { steps: rng.range(50, 3000) } });
+                }
+                faults.push(Fault { sel, act: act.clone() });
+                plan.incarnations[crash_inc].faults = faults;
                 let rr = run_plan(&env.bins, &plan, &RunOpts::default());
                 out.executions += rr.incs.len() as u64;
                 absorb_summary(&mut out, &rr);
@@ -735,13 +800,13 @@ impl Scenario for CrashScenario {
     }
     fn judge_plan(&self, plan: &Plan, env: &Env) -> (Vec<Finding>, u64) {
         let rr = run_plan(&env.bins, plan, &RunOpts::default());
-        let crash_inc = plan.incarnations.len().saturating_sub(2);
+        let crash_inc = crash_inc_of(plan);
         let fs = judge_crash(plan, &rr, self.mode)
             .into_iter()
             .filter(|f| self.owns(&f.rule))
             .map(|f| {
                 // same facts as in the search, so known-finding fingerprints match on replay
-                let act = plan.incarnations.get(crash_inc).and_then(|i| i.faults.first()).map(|f| match &f.act {
+                let act = plan.incarnations.get(crash_inc).and_then(|i| i.faults.last()).map(|f| match &f.act {
                     Act::Crash => "crash",
                     Act::Torn { .. } => "torn",
                     Act::UringCrashSubset { .. } => "uring_subset",
